@@ -622,17 +622,23 @@ class Configuration(_Configuration):
                 f'\nsyntax error in section {self.scope.location()}\nline {self.parser.number}: {line_str}\n\n{self.error!s}',
             )
 
+        # what validate() objects to is a failed reload like a syntax error. It ran after the commit and its verdict was
+        # dropped (`if check: return check` then `return True`): a file naming an api process which is not defined
+        # was applied, routes and all, with the error message set and reload() answering True.
+        if self.validate(self.neighbor.neighbors, self.process.processes) is not True:
+            self._rollback_reload()
+            return False
+
         self._commit_reload()
         self._link()
 
-        check = self.validate()
-        if check:
-            return check
-
         return True
 
-    def validate(self) -> bool:
-        for neighbor in self.neighbors.values():
+    def validate(self, neighbors: dict[str, Any] | None = None, processes: dict[str, Any] | None = None) -> bool:
+        # by default what is in force; _reload() hands in what it is about to commit
+        neighbors = self.neighbors if neighbors is None else neighbors
+        processes = self.processes if processes is None else processes
+        for neighbor in neighbors.values():
             has_procs = 'processes' in neighbor.api and neighbor.api['processes']
             has_match = 'processes-match' in neighbor.api and neighbor.api['processes-match']
             if has_procs and has_match:
@@ -646,12 +652,12 @@ class Configuration(_Configuration):
                 errors = []
                 for api in neighbor.api[notification]:
                     if notification == 'processes':
-                        if not self.processes[api].get('run', False):
+                        if not processes.get(api, {}).get('run', False):
                             return self.error.set(
                                 f"\n\nan api called '{api}' is used by neighbor '{neighbor.session.peer_address}' but not defined\n\n",
                             )
                     elif notification == 'processes-match':
-                        if not any(v.get('run', False) for k, v in self.processes.items() if re.match(api, k)):
+                        if not any(v.get('run', False) for k, v in processes.items() if re.match(api, k)):
                             errors.append(
                                 f"\n\nAny process match regex '{api}' for neighbor '{neighbor.session.peer_address}'.\n\n",
                             )
